@@ -3,7 +3,7 @@
 From Coq Require Import ZArith List Bool Arith Lia.
 Import ListNotations.
 From GV Require Import Common.Wire C03.Model.
-From GV Require C03.GenEquiv C03.GenManager.
+From GV Require C03.GenEquiv C03.GenManager C03.GenLinks.
 From GV Require Export C03.Lemmas1 C03.Lemmas2 C03.Lemmas3 C03.Lemmas4.
 Open Scope nat_scope.
 
@@ -120,18 +120,26 @@ Qed.
 
 Lemma ds_wf_remove : forall d d' cs,
   ds_wf d -> d_id d' = d_id d -> d_member d' = d_member d -> d_hub d' = d_hub d ->
-  d_own d' = remove_cids cs (d_own d) -> d_der d' = keep_der cs d ->
+  d_own d' = remove_cids cs (d_own d) -> d_der d' = keep_der cs d -> d_dinv d' = keep_dinv cs d ->
   incl (d_coord d') (d_own d') ->
   (forall l, In l (d_int d') -> l_from l <> [] /\ incl (l_from l) (d_coord d') /\ In (l_to l) (d_coord d')) ->
   ds_wf d'.
 Proof.
-  intros d d' cs (Hown & Hco & Hint & Hder & Hhub) E1 E2 E3 Eo Ed Hco' Hint'.
-  unfold ds_wf. rewrite E1, E2, E3. split; [|split; [|split; [|split]]]; auto.
+  intros d d' cs (Hown & Hco & Hint & (Hder & Hdinv) & Hhub) E1 E2 E3 Eo Ed Ei Hco' Hint'.
+  unfold ds_wf. rewrite E1, E2, E3. split; [|split; [|split; [|split; [split|]]]]; auto.
   - intros c Hc. apply Hown. apply (comps_sub cs d d' c Eo Ed Hc).
   - intros l Hl. rewrite Ed in Hl. apply keep_der_in in Hl. destruct Hl as [Hl Hh].
     destruct (Hder l Hl) as (Hnn & Hfr). split; auto.
     intros f Hf. rewrite Eo. apply in_remove_cids. split. { apply Hfr. exact Hf. }
     apply (proj1 (der_hit_false cs l Hh) f Hf).
+  - intros l Hl. rewrite Ei in Hl. unfold keep_dinv in Hl. apply filter_In in Hl. destruct Hl as [Hl Hh].
+    apply negb_true_iff in Hh. destruct (Hdinv l Hl) as (l' & Hl' & Ef' & Ef). exists l'. split; [|auto].
+    rewrite Ed. apply keep_der_in. split; auto.
+    destruct (der_hit_false cs l Hh) as [Hn1 Hn2].
+    unfold der_hit. apply orb_false_iff. split.
+    + rewrite Ef'. destruct (existsb (fun c => mem c [l_to l]) cs) eqn:Ex; auto.
+      apply existsb_exists in Ex. destruct Ex as [c [Hc Hm]]. apply mem_In in Hm. destruct Hm as [Hm|[]]. subst c. contradiction.
+    + destruct (mem (l_to l') cs) eqn:Em'; auto. apply mem_In in Em'. exfalso. apply (Hn1 (l_to l')); auto. rewrite Ef. simpl. auto.
 Qed.
 
 (* the registered links that survive drop_links are live in the state after the removal *)
@@ -185,7 +193,7 @@ Qed.
 Lemma step_good : forall s o, Good s -> valid_op s o -> Good (fst (step s o)).
 Proof.
   intros s o HG Hv. pose proof HG as [Hwf Hfr]. pose proof Hwf as (Hnd & Hds & Hext & Herr).
-  destruct o as [e|i|es|i c|i c|i l|i|i|i| |]; simpl in Hv |- *.
+  destruct o as [e|i|es|i c|i c|i l og|i|i|i| |]; simpl in Hv |- *.
   - (* AddLink *)
     destruct (add_one e (s_ext s)) as [ext' code] eqn:Ea.
     destruct (Nat.eqb (length ext') (length (s_ext s))); simpl; auto.
@@ -207,7 +215,7 @@ Proof.
     destruct (mem c (comps d) || negb (Z.eqb (fst c) i)) eqn:Ec; simpl; auto.
     apply orb_false_iff in Ec. destruct Ec as [Ec1 Ec2]. apply negb_false_iff, Z.eqb_eq in Ec2.
     destruct (find_ds_some _ _ _ Ef) as [Hd Hid].
-    set (d' := mkds (d_id d) (d_member d) (d_hub d) (d_n d) (d_own d ++ [c]) (d_coord d) (d_world d) (d_int d) (d_der d) (d_tbl d)).
+    set (d' := mkds (d_id d) (d_member d) (d_hub d) (d_n d) (d_own d ++ [c]) (d_coord d) (d_world d) (d_int d) (d_der d) (d_dinv d) (d_tbl d)).
     assert (Hf' : find_ds (d_id d') (s_data s) = Some d) by (simpl; rewrite Hid; exact Ef).
     assert (Hsub : forall x, In x (comps d) -> In x (comps d')).
     { intros x Hx. unfold comps in *. simpl. apply in_app_iff in Hx. rewrite !in_app_iff. tauto. }
@@ -220,7 +228,8 @@ Proof.
         + subst c0. congruence.
         + apply Hown. unfold comps. apply in_app_iff. auto.
       - apply incl_appl. exact Hco.
-      - intros l Hl. destruct (Hder l Hl) as (Hnn & Hfrm). split; auto. apply incl_appl. exact Hfrm. }
+      - destruct Hder as [Hder Hdinv]. split; auto.
+        intros l Hl. destruct (Hder l Hl) as (Hnn & Hfrm). split; auto. apply incl_appl. exact Hfrm. }
     destruct (d_hub d && d_member d) eqn:Ehm.
     + apply sync_good.
       destruct (wf_set_data s d d' Hwf Hf' Hwf') as (N1 & N2 & N3).
@@ -237,7 +246,7 @@ Proof.
     destruct (find_ds_some _ _ _ Ef) as [Hd Hid].
     pose proof (Hv d eq_refl) as Hnc.
     set (d' := mkds (d_id d) (d_member d) (d_hub d) (d_n d) (remove_cids [c] (d_own d)) (d_coord d) (d_world d) (d_int d)
-                    (keep_der [c] d) (d_tbl d)).
+                    (keep_der [c] d) (keep_dinv [c] d) (d_tbl d)).
     assert (Hf' : find_ds (d_id d') (s_data s) = Some d) by (simpl; rewrite Hid; exact Ef).
     assert (Hwf' : ds_wf d').
     { destruct (Hds d Hd) as (Hown & Hco & Hint & Hder & Hhub).
@@ -261,7 +270,7 @@ Proof.
     apply orb_false_iff in Ec. destruct Ec as [Ec1 Ec2].
     apply negb_false_iff, Z.eqb_eq in Ec2. apply negb_false_iff in Ec4.
     destruct (find_ds_some _ _ _ Ef) as [Hd Hid].
-    set (d' := mkds (d_id d) (d_member d) (d_hub d) (d_n d) (d_own d) (d_coord d) (d_world d) (d_int d) (d_der d ++ [l]) (d_tbl d)).
+    set (d' := mkds (d_id d) (d_member d) (d_hub d) (d_n d) (d_own d) (d_coord d) (d_world d) (d_int d) (d_der d ++ [l]) (d_dinv d ++ inv_links l og) (d_tbl d)).
     assert (Hf' : find_ds (d_id d') (s_data s) = Some d) by (simpl; rewrite Hid; exact Ef).
     assert (Hsub : forall x, In x (comps d) -> In x (comps d')).
     { intros x Hx. unfold comps, der_cids in *. simpl. rewrite map_app. apply in_app_iff in Hx. rewrite !in_app_iff. tauto. }
@@ -273,10 +282,15 @@ Proof.
         + apply Hown. unfold comps. apply in_app_iff. auto.
         + apply Hown. unfold comps. apply in_app_iff. auto.
         + subst c0. congruence.
-      - intros l0 Hl0. apply in_app_iff in Hl0. destruct Hl0 as [Hl0|[Hl0|[]]]; auto.
-        subst l0. split.
-        + destruct (l_from l); [discriminate|]. discriminate.
-        + intros f Hf. rewrite forallb_forall in Ec4. apply mem_In. apply Ec4. exact Hf. }
+      - destruct Hder as [Hder Hdinv]. split.
+        + intros l0 Hl0. apply in_app_iff in Hl0. destruct Hl0 as [Hl0|[Hl0|[]]]; auto.
+          subst l0. split.
+          * destruct (l_from l); [discriminate|]. discriminate.
+          * intros f Hf. rewrite forallb_forall in Ec4. apply mem_In. apply Ec4. exact Hf.
+        + intros l0 Hl0. apply in_app_iff in Hl0. destruct Hl0 as [Hl0|Hl0].
+          * destruct (Hdinv l0 Hl0) as (l' & Hl' & E1 & E2). exists l'. split; auto. apply in_app_iff. auto.
+          * exists l. split. { apply in_app_iff. right. simpl. auto. }
+            destruct (inv_links_spec _ _ _ Hl0) as [H1 H2]. rewrite H1, H2. simpl. auto. }
     destruct (d_hub d && d_member d) eqn:Ehm.
     + apply sync_good.
       destruct (wf_set_data s d d' Hwf Hf' Hwf') as (N1 & N2 & N3).
@@ -291,7 +305,7 @@ Proof.
     destruct (find_ds i (s_data s)) as [d|] eqn:Ef; simpl; auto.
     destruct (d_member d) eqn:Em; simpl; auto.
     destruct (find_ds_some _ _ _ Ef) as [Hd Hid].
-    set (d' := mkds (d_id d) true true (d_n d) (d_own d) (d_coord d) (d_world d) (d_int d) (d_der d) (d_tbl d)).
+    set (d' := mkds (d_id d) true true (d_n d) (d_own d) (d_coord d) (d_world d) (d_int d) (d_der d) (d_dinv d) (d_tbl d)).
     assert (Hf' : find_ds (d_id d') (s_data s) = Some d) by (simpl; rewrite Hid; exact Ef).
     assert (Hwf' : ds_wf d').
     { destruct (Hds d Hd) as (Hown & Hco & Hint & Hder & Hhub). unfold ds_wf. simpl. split; [|split; [|split; [|split]]]; auto. }
@@ -303,7 +317,7 @@ Proof.
     destruct (find_ds i (s_data s)) as [d|] eqn:Ef; simpl; auto.
     destruct (d_member d) eqn:Em; simpl; auto.
     destruct (find_ds_some _ _ _ Ef) as [Hd Hid].
-    set (d' := mkds (d_id d) false (d_hub d) (d_n d) (d_own d) (d_coord d) (d_world d) (d_int d) (d_der d) (d_tbl d)).
+    set (d' := mkds (d_id d) false (d_hub d) (d_n d) (d_own d) (d_coord d) (d_world d) (d_int d) (d_der d) (d_dinv d) (d_tbl d)).
     assert (Hf' : find_ds (d_id d') (s_data s) = Some d) by (simpl; rewrite Hid; exact Ef).
     assert (Hwf' : ds_wf d').
     { destruct (Hds d Hd) as (Hown & Hco & Hint & Hder & Hhub). unfold ds_wf. simpl. split; [|split; [|split; [|split]]]; auto. }
@@ -323,7 +337,7 @@ Proof.
     destruct (find_ds_some _ _ _ Ef) as [Hd Hid].
     set (w := w0 :: wr) in *.
     set (d' := mkds (d_id d) (d_member d) (d_hub d) (d_n d) (remove_cids w (d_own d)) (remove_cids w (d_coord d)) [] []
-                    (keep_der w d) (d_tbl d)).
+                    (keep_der w d) (keep_dinv w d) (d_tbl d)).
     assert (Hf' : find_ds (d_id d') (s_data s) = Some d) by (simpl; rewrite Hid; exact Ef).
     assert (Hwf' : ds_wf d').
     { destruct (Hds d Hd) as (Hown & Hco & Hint & Hder & Hhub).
@@ -410,11 +424,11 @@ Proof.
     { intros Hc. unfold comps in Hc. apply in_app_iff in Hc. destruct Hc as [Hc|Hc].
       - unfold depth_of in Ek. apply mem_In in Hc. rewrite Hc in Ek. discriminate.
       - unfold der_cids in Hc. apply in_map_iff in Hc. destruct Hc as [l [El Hl]]. subst c.
-        destruct Hwfs as (_ & Hds & _). destruct (Hds d Hin) as (_ & _ & _ & Hder & _).
+        destruct Hwfs as (_ & Hds & _). destruct (Hds d Hin) as (_ & _ & _ & (Hder & _) & _).
         destruct (Hder l Hl) as (_ & Hfrm).
         assert (HD : Derivable (d_own d) (all_links s) (l_to l) 1).
         { apply D_link.
-          - apply in_all_links. left. exists d. repeat split; auto. unfold ds_links. apply in_app_iff. auto.
+          - apply in_all_links. left. exists d. repeat split; auto. unfold ds_links. rewrite !in_app_iff. auto.
           - intros f Hf. apply D_own. apply Hfrm. exact Hf. }
         destruct (fix_complete _ _ _ Hfix _ _ HD) as [x [Hx _]]. congruence. }
     unfold read_ds. rewrite (read_none_sup _ _ (comps d) (der_env d env) c Ek Hnot). split.
@@ -445,3 +459,7 @@ Definition gen_data_removed_spec := GenManager.gen_data_removed_spec.
 Definition gen_component_removed_is_drop := GenManager.gen_component_removed_is_drop.
 Definition gen_update_installs := GenManager.gen_update_installs.
 Definition gen_update_is_recompute := GenManager.gen_update_is_recompute.
+(* round 5: which links are in force, translated (_links, _inverse_links, `self._links | self._inverse_links`) *)
+Definition gen_links_spec := GenLinks.gen_links_spec.
+Definition gen_inverse_links_spec := GenLinks.gen_inverse_links_spec.
+Definition gen_links_in_force_spec := GenLinks.gen_links_in_force_spec.
